@@ -316,7 +316,7 @@ func deepParse(n int) string {
 			return "err tree"
 		}
 		return "ok"
-	case <-time.After(2 * time.Second):
+	case <-time.After(20 * time.Second): // linear when memoised (0.2 s for 2000 pairs); exponential otherwise
 		return "err slow"
 	}
 }
